@@ -10,6 +10,11 @@ use common::*;
 use std::io::{BufRead, Write};
 
 fn main() {
+    // big FixedBuf<SIZE> values live on the stack: run on a thread with a large one
+    std::thread::Builder::new().stack_size(1 << 30).spawn(real_main).unwrap().join().unwrap();
+}
+
+fn real_main() {
     std::panic::set_hook(Box::new(|_| {}));
     let stdin = std::io::stdin();
     let stdout = std::io::stdout();
